@@ -925,8 +925,18 @@ class AirTouch4(pyairtouch.api.AirTouch):
             )
 
     async def _message_received(  # noqa: C901
-        self, _: pyairtouch.at4.comms.hdr.At4Header, message: pyairtouch.comms.Message
+        self,
+        header: pyairtouch.at4.comms.hdr.At4Header,
+        message: pyairtouch.comms.Message,
     ) -> None:
+        if (
+            header.to_address != pyairtouch.at4.comms.hdr.ADDRESS_CLIENT
+            and self._state != _AirTouchState.CONNECTED
+        ):
+            # An answer for another client must not be mistaken for the answer
+            # to one of the initialisation requests.
+            return
+
         # Process messages according to the current state.
         # Unexpected messages are silently ignored.
         match message:
